@@ -3,7 +3,7 @@
    check): for every written range, every resolver and both modes the translated code yields the model's interval. *)
 From Coq Require Import List NArith ZArith Bool Lia.
 From Coq Require Import ZifyBool ZifyN.
-From Gluon Require Import Gen.FactsInterval Model.SeqSet.
+From Gluon Require Import Gen.FactsInterval Gen.FactsResolve Model.SeqSet.
 Import ListNotations.
 
 (* command.SeqNum: 0 is "*", any other value the number itself (ParseSeqNumber only produces nz-numbers) *)
@@ -51,4 +51,29 @@ Proof.
       + replace (Z.of_N (r e) <? Z.of_N (r b))%Z with true by lia. destruct (is_star e); reflexivity.
       + replace (Z.of_N (r e) <? Z.of_N (r b))%Z with false by lia. reflexivity. }
   destruct Hc as [->| ->]; [exact H|]. exact H.
+Qed.
+
+(* ---------- resolveSeq / resolveUID ---------- *)
+Definition narrowZ (z : Z) : Z := (z mod 4294967296)%Z.
+
+Lemma narrowZ_of_N n : narrowZ (Z.of_N n) = Z.of_N (narrow32 n).
+Proof. unfold narrowZ, narrow32, two32. rewrite N2Z.inj_mod. reflexivity. Qed.
+
+(* resolveSeq never fails and is the model's resolve_seq, narrowing included *)
+Lemma resolve_seq_code_is_model cnt lastuid a : pnz a ->
+  resolve_seq_code narrowZ (Z.of_N cnt) lastuid seqnum_asterisk_value (enc a) = Some (Z.of_N (resolve_seq cnt a)).
+Proof.
+  intros Ha. unfold resolve_seq_code. rewrite (enc_star a Ha).
+  destruct a as [n|]; cbn [is_star enc resolve_seq]; rewrite narrowZ_of_N; reflexivity.
+Qed.
+
+(* resolveUID fails exactly on the empty view and otherwise is the model's resolve_uid *)
+Lemma resolve_uid_code_is_model uids a : pnz a ->
+  resolve_uid_code narrowZ (Z.of_nat (length uids)) (Z.of_N (last_uid uids)) seqnum_asterisk_value (enc a) =
+  match uids with [] => None | _ => Some (Z.of_N (resolve_uid uids a)) end.
+Proof.
+  intros Ha. unfold resolve_uid_code. rewrite (enc_star a Ha).
+  destruct uids as [|u t]; [reflexivity|].
+  replace (Z.of_nat (length (u :: t)) =? 0)%Z with false by (cbn [length]; lia).
+  destruct a as [n|]; cbn [is_star enc resolve_uid]; [rewrite narrowZ_of_N|]; reflexivity.
 Qed.
